@@ -98,8 +98,8 @@ plan("C04", "exploration",
           "(log <= 5 entries over 3 terms) is enumerated; thorough runs all of them, quick a seeded sample; a case is non-trivial when entries were sent and accepted. "
           "SIM: " + (SIM_RULE % "at least 10 successful AppendEntries with entries were checked against the follower's reconstructed disk"))
 plan("C05", "exploration",
-     [tbl("table", "TestC05", 8, "TABLE"), sim("churn", 16), sim("random", 10), sim("fig8x", 8), sim("storefail", 10)],
-     [tbl("table", "TestC05", 16, "TABLE", wall=3000), sim("churn", 170), sim("random", 170), sim("fig8", 100), sim("fig8x", 70), sim("storefail", 100)],
+     [tbl("table", "TestC05", 8, "TABLE"), sim("churn", 14), sim("random", 8), sim("fig8x", 6), sim("storefail", 8), sim("cfgtrunc", 12)],
+     [tbl("table", "TestC05", 16, "TABLE", wall=3000), sim("churn", 170), sim("random", 170), sim("fig8", 100), sim("fig8x", 70), sim("storefail", 100), sim("cfgtrunc", 80), sim("promote", 40)],
      None, None,
      {"quick": {"leader-commit": 1000, "majority-checked-at-leader-commit": 500}, "thorough": {"leader-commit": 7500}},
      rule="TABLE: every configuration over 3 servers (voter / non-voter / staging / absent, >= 1 voter) x startIndex 1..3 x every sequence of <= 3 (quick) / <= 4 (thorough) "
